@@ -61,10 +61,10 @@ func fill(ps *poolsim.PS, r *mon.Rand, n int) {
 			spec.NOut = 8
 		}
 		tx := ps.Build(spec)
-		// many sigops in an output script (bare multisig-like counting): a 20-key CHECKMULTISIG output
+		// signature operations in bare output scripts: CHECKMULTISIG counts 20, CHECKSIG 1 (legacy counting, x4 cost)
 		if r.Chance(1, 6) {
 			for q := 0; q < 1+r.Intn(6); q++ {
-				tx.AddTxOut(&wire.TxOut{Value: 0, PkScript: []byte{0x6a, 0x01, 0xae}})
+				tx.AddTxOut(&wire.TxOut{Value: 0, PkScript: [][]byte{{0xae}, {0xac}, {0xac, 0xac, 0xad}, {0x6a, 0x01, 0xae}}[r.Intn(4)]})
 			}
 			var prev []refchain.Coin
 			for _, c := range in {
@@ -75,6 +75,99 @@ func fill(ps *poolsim.PS, r *mon.Rand, n int) {
 		}
 		ps.Submit(tx, false, "process", v)
 	}
+}
+
+// sigopScript is a bare script of n OP_CHECKSIG bytes (n legacy signature operations = 4n units of cost).
+func sigopScript(n int) []byte {
+	s := make([]byte, n)
+	for i := range s {
+		s[i] = 0xac
+	}
+	return s
+}
+
+// runSigopLimit: a pool whose signature-operation cost reaches the consensus limit of 80 000 in steps of 4, with a
+// template coinbase that pays to a script with (or without) a signature operation of its own: generation must succeed
+// and the template must stay within the limit whatever the coinbase contributes.
+func runSigopLimit(k *mon.Case) {
+	r := k.Rand
+	g := chaingen.New(node.NewParams(node.FamRegtest), node.FamRegtest, r)
+	g.MaxTx = 4
+	mp := node.DefaultMemPolicy()
+	mp.MinRelayTxFee = 0
+	pol := node.DefaultMinePolicy()
+	pol.BlockMaxWeight, pol.BlockMaxSize = 4000000, 1000000
+	pol.BlockPrioritySize = 0 // fee-rate order: the large transactions first, then the single-sigop ones fill up to the limit
+	ps, err := poolsim.New(k, g, node.Config{UtxoCacheMaxSize: 1 << 25}, mp, pol)
+	if err != nil {
+		k.Failf("harness:open", "%v", err)
+		return
+	}
+	defer ps.Destroy()
+	payKind := []chaingen.Kind{chaingen.KTrue, chaingen.KP2PKH, chaingen.KP2PK, chaingen.KP2WPKH, chaingen.KP2TR}[r.Intn(5)]
+	if payKind != chaingen.KTrue {
+		ps.PayScript = g.Script(payKind, r.Intn(4), r)
+	}
+	k.Desc(map[string]any{"mode": "sigop-limit", "pay_kind": int(payKind)})
+	ps.Base(24 + r.Intn(6))
+	v := ps.View()
+	coins := ps.Coins(v, false)
+	if len(coins) < 8 {
+		k.Count("sigoplimit.too_few_coins", 1)
+		return
+	}
+	next := 0
+	submit := func(nsig int, fee int64) bool {
+		if next >= len(coins) {
+			return false
+		}
+		c := coins[next]
+		next++
+		var extra []*wire.TxOut
+		for left := nsig; left > 0; {
+			n := min(left, 2500)
+			extra = append(extra, &wire.TxOut{Value: 0, PkScript: sigopScript(n)})
+			left -= n
+		}
+		// one ordinary output of a kind without signature operations in its script
+		tx := wire.NewMsgTx(2)
+		tx.AddTxIn(&wire.TxIn{PreviousOutPoint: c.Op, Sequence: 0xffffffff})
+		tx.AddTxOut(&wire.TxOut{Value: c.Coin.Amount - fee, PkScript: g.Script(chaingen.KP2SHTrue, 0, r)})
+		for _, o := range extra {
+			tx.AddTxOut(o)
+		}
+		if err := g.SignTx(tx, []refchain.Coin{c.Coin}); err != nil {
+			panic(err)
+		}
+		ps.Known[tx.TxHash()] = tx
+		o := ps.Submit(tx, false, "process", nil)
+		return o.Err == nil && len(o.Accepted) > 0
+	}
+	// four transactions just below the per-transaction limit (cost 19 992 each), then single-sigop transactions
+	big := 0
+	for i := 0; i < 4 && !ps.Failed; i++ {
+		if submit(4998-r.Intn(3), int64(80000+r.Intn(40000))) {
+			big++
+		}
+	}
+	small := 0
+	for i := 0; i < 14 && !ps.Failed && next < len(coins); i++ {
+		if submit(1+r.Intn(2), int64(400+r.Intn(300))) {
+			small++
+		}
+	}
+	if ps.Failed {
+		return
+	}
+	k.Count("sigoplimit.pools", 1)
+	k.Count("sigoplimit.big_accepted", int64(big))
+	k.Count("sigoplimit.small_accepted", int64(small))
+	ps.MineTemplate(true)
+	// what did not fit goes into the next template
+	if !ps.Failed {
+		ps.MineTemplate(true)
+	}
+	k.Eval(mon.Sig("sigoplimit", int(payKind), big, small), true)
 }
 
 func runCase(k *mon.Case) {
@@ -91,7 +184,10 @@ func runCase(k *mon.Case) {
 		return
 	}
 	defer ps.Destroy()
-	k.Desc(map[string]any{"policy": pol})
+	if r.Chance(1, 2) {
+		ps.PayScript = g.Script([]chaingen.Kind{chaingen.KP2PKH, chaingen.KP2PK, chaingen.KP2WPKH, chaingen.KP2TR, chaingen.KP2SHTrue}[r.Intn(5)], r.Intn(4), r)
+	}
+	k.Desc(map[string]any{"policy": pol, "pay_script": ps.PayScript})
 	ps.Base(16 + r.Intn(8))
 	rounds := 6 + r.Intn(6)
 	for i := 0; i < rounds && !ps.Failed; i++ {
@@ -172,6 +268,10 @@ func main() {
 			return
 		}
 		c.Family("templates", c.N(210, 12000), runCase)
+		c.Family("sigoplimit", c.N(28, 1500), runSigopLimit)
+		c.Require("sigoplimit.pools", 20)
+		c.Require("template.pay_address", 100)
+		c.Require("template.sigops_at_limit", 3)
 		c.Require("template.mined", 1000)
 		c.Require("template.with_witness", 100)
 		c.Require("template.after_reorg", 20)
